@@ -35,4 +35,16 @@ CHECKS = {
         "level_note": "Oracle: encoding/json of the same toolchain (go1.23.5); both libraries receive the same interface value. reflect-built types only exercise the fallback-map cache path; recursive and freshly named method-bearing types come from the generated-source corpus (C08/C14).",
         "assumptions": ["encoding/json go1.23.5 is the reference behaviour", "canonical token comparison tolerates only \\u0008/\\b, \\u000c/\\f and exponent zero padding"],
     },
+    "C03": {
+        "pkg": "c03", "variants": [PLAIN],
+        "rule": ("C01's type/value generator extended with hostile leaves (non-finite float32/float64, ill-formed json.Number, marshalers returning well-formed, "
+                 "leniently-accepted and broken bytes or errors) x entry (Marshal, MarshalIndent, MarshalContext with/without FieldQuery, MarshalNoEscape, "
+                 "Encoder[+indent]) x option subsets {DisableHTMLEscape, DisableNormalizeUTF8 (ASCII content), UnorderedMap}. Oracle: err==nil implies the bytes are "
+                 "exactly one RFC 8259 text (strict recogniser; valid UTF-8 while normalisation is on; newline only from Encoder) and encoding/json does not reject the value. "
+                 "Non-trivial = a hostile class is enabled, or the type has a leaf-library type, or the output nests >= 2 deep; distinct by hash(type, recipe, reach, entry, options, hostile)."),
+        "technique": "property-based testing with hostile-value generators; oracle = strict RFC 8259 recogniser + encoding/json's error verdict; delta attribution for known findings",
+        "level_text": "Randomised exploration of values x options x entry points with an independent well-formedness oracle; exploration level.",
+        "level_note": "Trusted: the harness recogniser (cross-checked against encoding/json.Valid in C05) and encoding/json's verdict on what JSON cannot represent. Colorize is outside the statement.",
+        "assumptions": ["encoding/json's error verdict defines 'what JSON cannot represent' for the generated values"],
+    },
 }
